@@ -24,6 +24,8 @@
 (* Deviation "selfrerun" reproduces validate()'s `validators[i:]` slip of  *)
 (* the pinned tree (repaired by a fix: commit): the failing validator is   *)
 (* kept in the list re-validated after a discard.                          *)
+(* Deviation "depreqvalid" (seeded shape): a field missing because of     *)
+(* dependent_required is not counted among the invalid fields.             *)
 (* Deviation "aliasgate" reproduces the gating of the pinned tree on       *)
 (* field_errors keyed by ALIAS while dependencies are NAMES.               *)
 (***************************************************************************)
@@ -59,8 +61,13 @@ FirstDep(v) == Fields[CHOOSE i \in DOMAIN Fields :
                         Fields[i].name \in v.deps /\ \A j \in 1..(i - 1) : Fields[j].name \notin v.deps].name
 
 \* ---- errors
+\* case.depreq: dependent_required({a: [b]}) -- b is "missing" when a is in the datum and b is not.
+\* Such a field is in error like any other (deviation "depreqvalid", seeded shape: it is not counted
+\* among the invalid fields, so validators reading it run on its default)
+DepMissing(f) == /\ case.depreq /\ f.name = "b" /\ f.st = "absent"
+                 /\ Len(case.fields) >= 2 /\ case.fields[1].st # "absent"
 StructErr(f) == IF f.st = "invalid" THEN {<< <<f.alias>>, "type:integer" >>}
-                ELSE IF f.st = "absent" /\ f.req THEN {<< <<f.alias>>, "missing" >>}
+                ELSE IF f.st = "absent" /\ (f.req \/ DepMissing(f)) THEN {<< <<f.alias>>, "missing" >>}
                 ELSE {}
 ValErr(v) ==
   LET own  == IF v.style = "yieldpath" /\ v.deps # {} THEN <<AliasOf(FirstDep(v))>> ELSE <<>>
@@ -69,7 +76,7 @@ ValErr(v) ==
 
 ---------------------------------------------------------------------------
 \* ---- construction of the case
-Init == /\ case = [fields |-> <<>>, vals |-> <<>>]
+Init == /\ case = [fields |-> <<>>, vals |-> <<>>, depreq |-> FALSE]
         /\ phase = "build" /\ fi = 1 /\ provided = {} /\ ferr = {}
         /\ pending = <<>> /\ errs = {} /\ ran = <<>> /\ constructed = 0
 
@@ -105,7 +112,11 @@ AddVal ==
 
 StartCase == /\ phase = "build" /\ case.fields # <<>> /\ case.vals # <<>>
              /\ phase' = "fields"
-             /\ UNCHANGED <<case, fi, provided, ferr, pending, errs, ran, constructed>>
+             \* dependent_required({a: [b]}) needs two optional fields
+             /\ \E dr \in BOOLEAN :
+                   /\ dr => (Len(case.fields) >= 2 /\ ~case.fields[1].req /\ ~case.fields[2].req)
+                   /\ case' = [case EXCEPT !.depreq = dr]
+             /\ UNCHANGED <<fi, provided, ferr, pending, errs, ran, constructed>>
 
 ---------------------------------------------------------------------------
 \* ---- Layer M: the code's steps
@@ -115,7 +126,8 @@ DeserField ==
   /\ phase = "fields" /\ fi <= Len(Fields)
   /\ LET f == Fields[fi] IN
        /\ provided' = IF f.st = "valid" THEN provided \cup {f.name} ELSE provided
-       /\ ferr'     = IF StructErr(f) # {} THEN ferr \cup {f.name} ELSE ferr
+       /\ ferr'     = IF StructErr(f) # {} /\ ~("depreqvalid" \in Deviations /\ DepMissing(f) /\ ~f.req)
+                      THEN ferr \cup {f.name} ELSE ferr
        /\ errs'     = errs \cup StructErr(f)
   /\ fi' = fi + 1
   /\ UNCHANGED <<case, phase, pending, ran, constructed>>
